@@ -13,7 +13,8 @@ The levels of the Huffman tree have different lengths, so the simple bound of th
   `estimate at level k ≤ true position at level k + k`
 
 (`approx_rank(tb, p) ≤ rank(tb, p + 1)`: one element is lost per level), together with
-`true position ≤ level length` and the arithmetic fact `p ≤ ℓ + 2046 → ⌊p/2048⌋ + 1 ≤ nb ℓ`.
+`true position ≤ level length` and the arithmetic fact `p ≤ ℓ + rate - 2 → ⌊p/rate⌋ + 1 ≤ nb ℓ`
+(`rate = 2 ^ pfsSampleShift`).
 
 The tree invariant is taken as an explicit hypothesis (`D k`: digit list of level `k`,
 `T k`: the true position of the walk at level `k`), in a form that the HQWT level invariant
@@ -24,11 +25,22 @@ set_option linter.unusedVariables false
 namespace Qwt.PfsP
 open Qwt
 
-/-- a position at most `2046` beyond a position inside a non-empty level is still inside the
+/-- side condition on the extracted constant: the rate is at least the largest number of levels
+    of the Huffman-shaped tree (code lengths are at most 32 bits, i.e. 16 two-bit levels), so the
+    drift of one element per level never leaves the last sampled block -/
+theorem shift_ge_four : 4 ≤ Extracted.pfsSampleShift := by decide
+
+theorem rate_ge_16 : 16 ≤ rate := by
+  have := Nat.pow_le_pow_right (n := 2) (by decide) shift_ge_four
+  exact this
+
+/-- a position at most `rate - 2` beyond a position inside a non-empty level is still inside the
     sample vectors -/
-theorem est_in_range {n T p k : Nat} (hn : 0 < n) (hT : T ≤ n) (hp : p ≤ T + k) (hk : k ≤ 2046) :
-    p / 2048 + 1 ≤ nbOf n := by
-  unfold nbOf; rw [if_neg (by omega)]; omega
+theorem est_in_range {n T p k : Nat} (hn : 0 < n) (hT : T ≤ n) (hp : p ≤ T + k) (hk : k + 2 ≤ rate) :
+    p / rate + 1 ≤ nbOf n := by
+  unfold nbOf; rw [if_neg (by omega)]
+  have := Nat.div_le_div_right (c := rate) (show p ≤ n + rate - 2 by omega)
+  omega
 
 /-- one element is lost per level -/
 theorem approxSpec_le_track (L : List Nat) (tb : Nat) {e T k : Nat} (he : e ≤ T + k) :
@@ -130,7 +142,7 @@ theorem tbAt_lt (code : PrefixCode) (k : Nat) : tbAt code k < 4 := by
     `T k` the true position of the walk at level `k` -/
 structure WalkHyp (c : Cfg) (t : HQWT) (code : PrefixCode) (pfs : Array PFS.PrefetchSupport)
     (D : Nat → List Nat) (T : Nat → Nat) : Prop where
-  levels_le : code.len / 2 ≤ 2047
+  levels_le : code.len / 2 ≤ rate
   qvs : ∀ k, k < code.len / 2 → ∃ r, t.qvs[k]? = some r ∧ RSQ.Represents c.B r (D k)
   pfs : ∀ k, k + 1 < code.len / 2 → ∃ p, pfs[k]? = some p ∧ PfsRep (D k) p
   nonempty : ∀ k, k + 1 < code.len / 2 → 0 < (D k).length
@@ -158,7 +170,7 @@ theorem phase1_go_ok {c : Cfg} {t : HQWT} {code : PrefixCode} {pfs : Array PFS.P
       have hne := h.nonempty k hk
       have hin := h.inside k hk
       have hd := tbAt_lt code k
-      have hkk : k ≤ 2046 := by have := h.levels_le; omega
+      have hkk : k + 2 ≤ rate := by have := h.levels_le; omega
       have he_in := est_in_range hne hin he hkk
       have hs_in := est_in_range hne hin (Nat.le_trans hse he) hkk
       have etb : ((code.content >>> sh.toNat) % 256) &&& 3 = tbAt code k := by
